@@ -30,7 +30,7 @@ MANIFEST = {
     "note": "Assumes the documented order from the property text; strings outside the alphabet and longer than the bound are not covered; reading back writer output only checks that the reader returns a non-empty caption set.",
 }
 
-TOKENS = ["1", "a", "\n", "\r\n", " ", "{1}", "-->", "WEBVTT", "<sami", "</tt>", "Scenarist_SCC V1.0", "{"]
+TOKENS = ["1", "a", "\n", "\r\n", " ", "{1}", "-->", "WEBVTT", "<sami", "</tt>", "Scenarist_SCC V1.0", "{", "\ufeff"]
 ORDER = ["DFXPReader", "MicroDVDReader", "WebVTTReader", "SAMIReader", "SRTReader", "SCCReader"]
 
 
@@ -117,6 +117,18 @@ def _build_set(spec):
         # the first caption starts at the very beginning of the programme, the next ones follow closely
         spec = spec[1:]
         t, step = 0, 1600000
+    if spec and spec[0] == "@short":
+        # captions away from time zero that last less than one MicroDVD frame, or nothing at all
+        spec = spec[1:]
+        for k, lines in enumerate(spec):
+            nodes = []
+            for i, ln in enumerate(lines):
+                if i:
+                    nodes.append(CaptionNode.create_break())
+                nodes.append(CaptionNode.create_text(ln))
+            start = 4000000 * (k + 1)
+            caps.append(Caption(start, start + (0 if k % 2 == 0 else 30000), nodes))
+        return CaptionSet({"en-US": caps})
     if spec and spec[0] == "@tight":
         # captions crowded into the first second (less time between them than their transmission takes)
         spec = spec[1:]
@@ -194,6 +206,10 @@ def writer_specs(tier):
         specs.append(["@0", [t], ["two rows", t]])
         specs.append(["@0", ["Hi!"], [t, "second row"], ["third"]])
         specs.append(["@tight", ["Hi!"], [t, "second row of the caption"], ["third"]])
+    for t in TEXT_TOKENS[:4]:
+        specs.append(["@short", [t], ["Bang!"], ["1984"]])
+        specs.append([[t, " ", "42"]])       # a line of one blank between two lines
+        specs.append([["Total:", "", t]])    # an empty text node between two breaks
     pairs = TEXT_TOKENS if tier == "thorough" else TEXT_TOKENS[:9]
     for a in pairs:
         for b in pairs:
